@@ -16,8 +16,8 @@ Proof. exact concat_stream_total. Qed.
 Print Assumptions concat_total.
 
 Example concat_total_nonvacuous :
-  concat_stream [CMap [("k"%string, CNil)]; CMap [("k"%string, CStr "a")]; CMap [("j"%string, CNil)]]
-  = Ok (CMap [("k"%string, CStr "a"); ("j"%string, CNil)]).
+  concat_stream [CMap 0 [("k"%string, CNil)]; CMap 0 [("k"%string, CStr "a")]; CMap 0 [("j"%string, CNil)]]
+  = Ok (CMap 0 [("k"%string, CStr "a"); ("j"%string, CNil)]).
 Proof. vm_compute. reflexivity. Qed.
 
 (* Re-chunking: for a statically typed chunk stream (all chunks of dynamic type [t]),
@@ -41,18 +41,18 @@ Proof. exact concat_stream_rechunk. Qed.
 Print Assumptions concat_rechunk.
 
 Example concat_rechunk_nonvacuous_ok :
-  let xs := [CMap [("k"%string, CStr "a"); ("n"%string, CMap [("x"%string, CNum 0 1)])];
-             CMap [("k"%string, CNil); ("n"%string, CMap [("x"%string, CNum 0 2); ("y"%string, COther 0 0)])]] in
-  let ys := [CMap [("n"%string, CMap [("y"%string, COther 0 7)]); ("k"%string, CStr "b")]] in
+  let xs := [CMap 0 [("k"%string, CStr "a"); ("n"%string, CMap 0 [("x"%string, CNum 0 1)])];
+             CMap 0 [("k"%string, CNil); ("n"%string, CMap 0 [("x"%string, CNum 0 2); ("y"%string, COther 0 0)])]] in
+  let ys := [CMap 0 [("n"%string, CMap 0 [("y"%string, COther 0 7)]); ("k"%string, CStr "b")]] in
   exists c, concat_stream xs = Ok c /\
     concat_stream (c :: ys) = concat_stream (xs ++ ys) /\
     concat_stream (xs ++ ys) =
-      Ok (CMap [("k"%string, CStr "ab"); ("n"%string, CMap [("x"%string, CNum 0 2); ("y"%string, COther 0 7)])]).
+      Ok (CMap 0 [("k"%string, CStr "ab"); ("n"%string, CMap 0 [("x"%string, CNum 0 2); ("y"%string, COther 0 7)])]).
 Proof. eexists. split; [vm_compute; reflexivity|]. split; vm_compute; reflexivity. Qed.
 
 Example concat_rechunk_nonvacuous_err :
-  let xs := [CMap [("k"%string, COther 0 1)]; CMap [("j"%string, CStr "s")]] in
-  let ys := [CMap [("k"%string, COther 0 2)]] in
+  let xs := [CMap 0 [("k"%string, COther 0 1)]; CMap 0 [("j"%string, CStr "s")]] in
+  let ys := [CMap 0 [("k"%string, COther 0 2)]] in
   exists c, concat_stream xs = Ok c /\ concat_stream (c :: ys) = Err E_MULTI /\ concat_stream (xs ++ ys) = Err E_MULTI.
 Proof. eexists. split; [vm_compute; reflexivity|]. split; vm_compute; reflexivity. Qed.
 
